@@ -362,7 +362,10 @@ def judge(chk, results, traces, procs, keys, max_polls, own):
             key = f"{name}:{line['act'] if line['act'] != 'other' else line['ev']}:{line['res']}"
             what = (f"{name} is false in the state observed after operation {ln} "
                     f"({line['proc']} {line['ev']} -> {line['res']}) of a real execution")
-            if OWNER.get(name) == own:
+            faulty_prefix = any(x["act"] == "Kill" or (x["act"] == "Request" and x["fault"] != "none") for x in tr[:ln])
+            mine = OWNER.get(name) == own or (own == "C15" and faulty_prefix and name in (
+                "LoadPointComplete", "NoPartialLoad", "ResultsCorrect", "MarkerImpliesComplete", "ReturnedLoaded"))
+            if mine:
                 chk.violation(key, what, {"property_invariant": name, "line": ln, "job": {k: v for k, v in res.items() if k != 'trace'},
                                           "trace_prefix": tr[:ln], "abbrev": _abbrev(tr[:ln])})
             else:
